@@ -33,7 +33,8 @@ EXTENDS Rational, Sequences, FiniteSets, TLC, Json
 \* (harness/c17.py TREE_FIXES).  "large": LARGE_INPUT {2: 2^11+1, ...} tested with >= and looked up by
 \* item size; "inbase": in_base returns in_units(base units); "complexop": a complex operand 1 is cast to
 \* the complex type of its item size; "inplace": the in-place float image is asarray(values * factor);
-\* "tovalue": to_value of a complex quantity returns complex(v).
+\* "tovalue": to_value of a complex quantity returns complex(v); "ufuncscale": an integer operand 1 of a
+\* mixed-unit ufunc is scaled in double precision before it is narrowed to the float of its item size.
 Fixes == {}
 
 \* ---------------------------------------------------------------- dtypes
@@ -60,7 +61,14 @@ MaxBits(d) == 8 * Size(d) - (IF IsSigned(d) THEN 1 ELSE 0)
 
 \* ---------------------------------------------------------------- units
 \* model registry: index -> binary exponent of the scale (1 m, 2 la, 3 lc)
-UnitExp(u) == CASE u = 1 -> 0 [] u = 2 -> 10 [] u = 3 -> -3
+\* 11 = lnd: same scale as la, but registered with an np.float64 base value (a strongly typed NumPy scalar)
+UnitExp(u) == CASE u = 1 -> 0 [] u = 2 -> 10 [] u = 3 -> -3 [] u = 11 -> 10
+\* units of the default registry (non-dyadic factors, or table values held as np.float64 / int): decimal
+\* exponent used only to order them (is the factor from -> to above or below one?)
+\* 4 km, 5 mile, 6 cm, 7 mm, 8 Mm, 9 ym, 10 Ym, 12 l_pl (np.float64), 13 Wh (int), 14 J, 15 dB (np.float64), 16 B (np.float64)
+RealRank(u) == CASE u = 1 -> 0 [] u = 4 -> 30 [] u = 5 -> 32 [] u = 6 -> -20 [] u = 7 -> -30 [] u = 8 -> 60 [] u = 9 -> -240
+                 [] u = 10 -> 240 [] u = 12 -> -350 [] u = 13 -> 36 [] u = 14 -> 0 [] u = 15 -> -10 [] u = 16 -> 0
+RealDir(from, to) == IF RealRank(from) > RealRank(to) THEN 1 ELSE -1
 Factor(from, to) == UnitExp(from) - UnitExp(to)
 RECURSIVE Pow2Nat(_)
 Pow2Nat(n) == IF n = 0 THEN 1 ELSE 2 * Pow2Nat(n - 1)
@@ -71,11 +79,11 @@ Pow2(k) == IF k >= 0 THEN <<Pow2Nat(k), 1>> ELSE <<1, Pow2Nat(-k)>>
 \* g53 = 2^53+3, max / min = limits of the dtype, nmax = -max
 \* float classes: h = 3/2, ng = -11/4, ulp = 1 + one unit in the last place of the dtype
 \* complex classes: z = 3/2 + 5/2 j, zu = (1 + ulp) - 3 j
-IntClasses == {"s3", "n5", "e11", "e24", "g24", "e53", "g53", "max", "min", "nmax"}
+IntClasses == {"z0", "s3", "n5", "e11", "e24", "g24", "e53", "g53", "max", "min", "nmax"}
 FloatClasses == {"h", "ng", "ulp"}
 ComplexClasses == {"z", "zu"}
 Applies(vc, d) ==
-  CASE vc = "s3" -> IsInt(d)
+  CASE vc \in {"s3", "z0"} -> IsInt(d)
     [] vc = "n5" -> IsSigned(d)
     [] vc = "e11" -> IsInt(d) /\ Size(d) >= 2
     [] vc \in {"e24", "g24"} -> IsInt(d) /\ Size(d) >= 4
@@ -89,13 +97,13 @@ Applies(vc, d) ==
 BaseClass(d) == IF IsInt(d) THEN "s3" ELSE IF IsFloat(d) THEN "h" ELSE "z"
 Elems(vc, d, shape) == IF shape = "q" THEN <<vc>> ELSE <<BaseClass(d), vc>>
 \* classes whose value TLC holds exactly: <<re, im>> of rationals
-IsSmall(vc) == vc \in {"s3", "n5", "e11", "h", "ng", "z"}
-SmallVal(vc) == CASE vc = "s3" -> <<R(3), RZero>> [] vc = "n5" -> <<R(-5), RZero>> [] vc = "e11" -> <<R(2049), RZero>>
+IsSmall(vc) == vc \in {"z0", "s3", "n5", "e11", "h", "ng", "z"}
+SmallVal(vc) == CASE vc = "z0" -> <<RZero, RZero>> [] vc = "s3" -> <<R(3), RZero>> [] vc = "n5" -> <<R(-5), RZero>> [] vc = "e11" -> <<R(2049), RZero>>
                   [] vc = "h" -> <<<<3, 2>>, RZero>> [] vc = "ng" -> <<<<-11, 4>>, RZero>> [] vc = "z" -> <<<<3, 2>>, <<5, 2>>>>
 
 \* is the integer of class vc (at dtype d) exactly representable in a float with components of cs bytes?
 RepIn(vc, d, cs) ==
-  CASE vc \in {"s3", "n5"} -> TRUE
+  CASE vc \in {"z0", "s3", "n5"} -> TRUE
     [] vc = "e11" -> Prec(cs) >= 12
     [] vc \in {"e24", "g24"} -> Prec(cs) >= 25
     [] vc \in {"e53", "g53"} -> Prec(cs) >= 54
@@ -173,7 +181,7 @@ OutDType(out, d0) == IF out = "inplace" THEN d0 ELSE out
 \* do the values come out as the statement demands?  Two deviations of today's code are transcribed:
 \* the imaginary part of a complex operand 1 is dropped by the cast to a real float; a uint16 operand 1
 \* above the float16 range overflows in the cast, before the scaling (x1 = inf instead of 65535 * 2^k)
-OverflowU2(d1, vc1, k) == d1 = "u2" /\ vc1 = "max" /\ k < 0
+OverflowU2(d1, vc1, k) == d1 = "u2" /\ vc1 = "max" /\ k < 0 /\ "ufuncscale" \notin Fixes
 V0Below(vc0, d0, k) == vc0 \in {"s3", "h", "z"} \/ (vc0 = "max" /\ IsInt(d0) /\ Size(d0) = 1 /\ k = -3)
 ElemVok(op, d0, d1, pr, k) ==
   /\ (IsComplex(d1) => (op \in CmpOps \/ "complexop" \in Fixes))
@@ -248,7 +256,9 @@ C17a_UKind(op, d0, d1, out, r) ==
                    /\ ((IsComplex(d0) \/ IsComplex(d1)) => r.kind = "c")
 C17a_UNarrow(op, d0, d1, out, r) ==
   (~r.raise /\ op \in ArithOps /\ r.kind \in {"f", "c"}) =>
-     IF out = "none" THEN CompOf(r.kind, r.size) >= Max2(Comp(d0), Comp(d1))
+     \* ("float32 and float16 data stay in their width": with two floating operands nothing may widen)
+     IF out = "none" THEN (IF IsInt(d0) \/ IsInt(d1) THEN CompOf(r.kind, r.size) >= Max2(Comp(d0), Comp(d1))
+                           ELSE CompOf(r.kind, r.size) = Max2(Comp(d0), Comp(d1)))
      ELSE LET od == OutDType(out, d0) IN CompOf(r.kind, r.size) = Comp(od)
 UfuncFails(op, d0, d1, out, r) ==
   {cl \in {"C17_refuse", "C17a_kind", "C17a_narrow", "C17a_value"} :
@@ -279,7 +289,7 @@ AsFloatComp(d) == IF IsInt(d) THEN IntAsFloat(d) ELSE Comp(d)
 ResultType(a, b) == LET cs == Max2(AsFloatComp(a), AsFloatComp(b)) IN
                     IF IsComplex(a) \/ IsComplex(b) THEN [kind |-> "c", size |-> 2 * cs] ELSE [kind |-> "f", size |-> cs]
 \* is v * 2^k an integer, for the integer of class vc at dtype d?  (every class but "min" is odd)
-Integral(vc, d, k) == k >= 0 \/ (vc = "min" /\ 8 * Size(d) - 1 >= -k)
+Integral(vc, d, k) == k >= 0 \/ vc = "z0" \/ (vc = "min" /\ 8 * Size(d) - 1 >= -k)
 \* units of the assigned / listed elements per form: <<unit of element 1, unit of element 2>>
 ElemUnits(form, uf, us) == IF form \in {"setitem_arr", "isclose", "allclose"} \cup RefusingForms THEN <<us, us>> ELSE <<uf, us>>
 \* the unit the data end up in
